@@ -127,7 +127,10 @@ func runC08(c *core.Ctx) {
 					// after rundefers the lock must be gone: emulate deferred unlocks
 					ls := li.At[ins].Clone()
 					applyDefers(m, ls)
-					if ls.HasAny(lockPath) {
+					if li.Entry[m].HasAny(lockPath) {
+						// a helper that every caller enters with the lock already held: the caller releases it
+						c.Pass("R1b", key, p.InstrPos(ins), "entered with "+lockPath+" held by every caller; released by the caller")
+					} else if ls.HasAny(lockPath) {
 						c.Fail("R1b", key, p.InstrPos(ins), "returns with "+lockPath+" still held: the next caller deadlocks")
 					} else {
 						c.Pass("R1b", key, p.InstrPos(ins), "lock released at exit")
